@@ -75,7 +75,7 @@ func c13TimedWithRetry(cs string) (res string) {
 	}()
 	late := kv(cs)["late"] == "1"
 	for try := 0; ; try++ {
-		res = c13TimedOnce(cs)
+		res = c13TimedOnce(cs, try)
 		if late || try >= 2 || !(res == "notjudged" || strings.Contains(res, "stall=1") || res == "dial-error") {
 			return res
 		}
@@ -83,9 +83,10 @@ func c13TimedWithRetry(cs string) (res string) {
 	}
 }
 
-func c13TimedOnce(cs string) string {
+func c13TimedOnce(cs string, try int) string {
 	m := kv(cs)
-	proto, base := m["proto"], atoi(m["base"])
+	// a retry uses fresh ids: a query of the abandoned attempt may still reach the upstream later
+	proto, base := m["proto"], atoi(m["base"])+20*try
 	fs := c13ParseFrames(m["fr"])
 	stream := c13StreamBase(fs, base)
 	c13t.up.forget(base, base+len(fs))
@@ -319,7 +320,7 @@ func c13TimedGen(r *rand.Rand, thorough bool, emit func(c, cat string)) {
 			if sc.late {
 				cs += " late=1"
 			}
-			base += 50
+			base += 60
 			cases = append(cases, cs)
 			cats = append(cats, proto+"-"+sc.cat)
 		}
